@@ -54,6 +54,7 @@ func init() {
 	specs = append(specs, Spec{ID: "C11", Level: "exploration", MinDistinct: 30, Engines: []Engine{
 		{Name: "seq", Pkg: "./mon/c11", Procs: 1},
 		{Name: "coop", Pkg: "./mon/c11", Env: []string{"VERIF_MODE=coop"}, Instr: []string{"core/flow/tc_warm_up.go"}},
+		{Name: "coopmem", Pkg: "./mon/c11", Env: []string{"VERIF_MODE=coopmem"}, Par: true, RepeatQuick: 4, RepeatThorough: 16, Instr: []string{"core/system_metric/sys_metric_stat.go"}},
 	}})
 	specs = append(specs, Spec{ID: "C12", Level: "exploration", MinDistinct: 1000, Engines: []Engine{
 		{Name: "coop", Pkg: "./mon/c12", Instr: []string{"core/circuitbreaker/circuit_breaker.go", "core/stat/base/leap_array.go"}},
